@@ -104,8 +104,8 @@ def h_cr(ctx, cfg):
     ctx.prove("C04:CR>=0", cr >= -1e-12)
     ctx.prove("C03:th not lowered, <= th_s after capillary rise",
               And(*[And(nc2.th[i] >= th0[i] - 1e-12, nc2.th[i] <= float(base.th_s[i]) + 1e-12) for i in range(n)]))
-    ctx.prove("C19:capillary rise never lifts a compartment above its adjusted field capacity (0.00005 rounding quantum)",
-              And(*[Or(nc2.th[i] == th0[i], nc2.th[i] <= fca[i] + 5.0001e-5) for i in range(n)]))
+    ctx.prove("C19:capillary rise never lifts a compartment above its adjusted field capacity",
+              And(*[Or(nc2.th[i] == th0[i], nc2.th[i] <= fca[i] + 1e-12) for i in range(n)]))
     if cfg["wt"] == 0:
         ctx.prove("C19:no table => CR=0 and th untouched", And(approx(cr, 0, 0), *[a == b for a, b in zip(list(nc2.th), th0)]))
     far = zgw - float(base.zMid[-1]) >= 4
